@@ -8,9 +8,9 @@ from vlib.gen import make_r_fmt, make_r_sub, make_r_dyn, r_fold, r_dynw
 
 QB = "src/backend/query_builder.rs"
 P = ["C08"]
-OPAQUE = ["OnConflictTarget", "ColumnRef", "SelectDistinct", "TableRef", "JoinType", "JoinOn", "ConditionHolder", "SimpleExpr", "DynIden",
-          "Value", "IndexHint", "TableSample"]
-r_fmt = make_r_fmt(wmap=lambda w: w)
+OPAQUE = ["ValueTuple", "FunctionCall", "OnConflictTarget", "ColumnRef", "TableRef", "JoinType", "JoinOn", "ConditionHolder", "SimpleExpr", "DynIden",
+          "Value"]
+r_fmt = make_r_fmt(wmap=lambda w: w, merge=True)
 
 
 def abstract(name, params, ev):
@@ -85,7 +85,7 @@ UPDATE_PARTS = [
 INSERT_BODY = """(if s.default_values is Some && s.columns@.len() == 0 && s.source is None {
         seq![Ev::Output(s.returning), lit(" "), Ev::DefaultValues(s.default_values->Some_0)]
     } else {
-        seq![lit(" "), lit("(")] + l_idens(s.columns@) + seq![lit(")"), Ev::Output(s.returning)]
+        seq![lit(" (")] + l_idens(s.columns@) + seq![lit(")"), Ev::Output(s.returning)]
             + (match s.source { None => Seq::<Ev>::empty(), Some(InsertValueSource::Values(v)) => seq![lit(" "), lit("VALUES ")] + l_rows(v@), Some(InsertValueSource::Select(q)) => seq![lit(" "), Ev::Select(*q)] })
     })"""
 INSERT_PARTS = [
@@ -191,7 +191,9 @@ def snapshots(parts):
     return "let ghost t0 = sql.tr(); " + " ".join("let ghost mut s_%s = sql.tr();" % p[0] for p in parts)
 
 
-def build(u):
+def build(u, variant=None):
+    # two halves so that they verify in parallel: `statements` (SELECT / INSERT / UPDATE / DELETE renderers and their hooks) and
+    # `clauses` (the clause renderers those call); both start from the same types and specification
     u.emit("use vstd::prelude::*;\nverus! {\n")
     for n in OPAQUE:
         u.emit("#[verifier::external_body]\npub struct %s { _opaque: u8 }\n" % n, kind="spec", key="R-opaque:" + n, props=P)
@@ -225,171 +227,187 @@ def build(u):
     u.type_item("src/types.rs", "enum", "NullOrdering", props=P)
     u.type_item("src/types.rs", "enum", "Order", props=P)
     u.type_item("src/types.rs", "struct", "OrderExpr", props=P, rules=[make_r_sub("R-vis", r"pub\(crate\) ", "pub ", min_count=0)])
+    # dialect-specific select constructs: real types
+    u.type_item("src/extension/mysql/index.rs", "enum", "IndexHintType", props=P, keep_derive=("Clone", "Copy"))
+    u.type_item("src/extension/mysql/index.rs", "enum", "IndexHintScope", props=P, keep_derive=("Clone", "Copy"))
+    u.type_item("src/extension/mysql/index.rs", "struct", "IndexHint", props=P)
+    u.type_item("src/extension/postgres/select.rs", "enum", "SampleMethod", props=P, keep_derive=("Clone", "Copy"))
+    u.type_item("src/extension/postgres/select.rs", "struct", "TableSample", props=P, keep_derive=("Clone", "Copy"))
+    u.type_item("src/query/select.rs", "enum", "SelectDistinct", props=P)
     u.type_item("src/query/select.rs", "struct", "SelectStatement", props=P,
-                keep_fields=["with", "distinct", "selects", "from", "join", "where", "groups", "having", "unions", "orders", "limit", "offset", "lock", "window"])
+                keep_fields=["with", "distinct", "selects", "from", "join", "where", "groups", "having", "unions", "orders", "limit", "offset", "lock", "window", "table_sample", "index_hints"],
+                rules=[make_r_sub("R-path", r"crate::extension::postgres::TableSample", "TableSample"), make_r_sub("R-path", r"crate::extension::mysql::IndexHint", "IndexHint")])
     u.prelude_file("units/render/spec.rs", props=P)
     u.spec("".join(list_fns(*l) for l in LISTS), "render::list-fns", props=P)
-    parts_spec(u, "select", "SelectStatement", SELECT_PARTS)
+    if variant != "clauses":
+        parts_spec(u, "select", "SelectStatement", SELECT_PARTS)
     u.type_item("src/query/delete.rs", "struct", "DeleteStatement", props=P, keep_fields=["table", "where", "returning", "with"])
     u.type_item("src/query/update.rs", "struct", "UpdateStatement", props=P, keep_fields=["table", "values", "where", "returning", "with", "from"])
-    parts_spec(u, "delete", "DeleteStatement", DELETE_PARTS)
-    parts_spec(u, "update", "UpdateStatement", UPDATE_PARTS)
+    if variant != "clauses":
+        parts_spec(u, "delete", "DeleteStatement", DELETE_PARTS)
+    if variant != "clauses":
+        parts_spec(u, "update", "UpdateStatement", UPDATE_PARTS)
     u.type_item("src/query/insert.rs", "enum", "InsertValueSource", props=P, rules=[make_r_sub("R-vis", r"pub\(crate\) enum", "pub enum")])
     u.type_item("src/query/insert.rs", "struct", "InsertStatement", props=P, keep_fields=["replace", "table", "columns", "source", "on_conflict", "returning", "default_values", "with"])
-    parts_spec(u, "insert", "InsertStatement", INSERT_PARTS)
-    u.emit("pub struct Dflt;\nimpl Dflt {\n")
-    u.spec(abstract("prepare_with_clause", "x: &WithClause", "Ev::With(*x)") + abstract("prepare_select_distinct", "x: &SelectDistinct", "Ev::Distinct(*x)")
-           + abstract("prepare_select_expr", "x: &SelectExpr", "Ev::SelExpr(*x)") + abstract("prepare_table_ref", "x: &TableRef", "Ev::TRef(*x)")
-           + abstract("prepare_index_hints", "x: &SelectStatement", "Ev::IndexHints") + abstract("prepare_table_sample", "x: &SelectStatement", "Ev::TableSample")
-           + abstract("prepare_join_expr", "x: &JoinExpr", "Ev::Join(*x)") + abstract("prepare_condition", "x: &ConditionHolder, kw: &str", "Ev::Cond(kw@, *x)")
-           + abstract("prepare_simple_expr", "x: &SimpleExpr", "Ev::Expr(*x)") + abstract("prepare_union_statement", "t: UnionType, q: &SelectStatement", "Ev::Union(t, *q)")
-           + abstract("prepare_order_expr", "x: &OrderExpr", "Ev::Order(*x)") + abstract("prepare_select_limit_offset", "x: &SelectStatement", "Ev::LimitOffset")
-           + abstract("prepare_select_lock", "x: &LockClause", "Ev::Lock(*x)") + abstract("prepare_iden", "x: &DynIden", "Ev::Iden(*x)")
-           + abstract("prepare_window_statement", "x: &WindowStatement", "Ev::Window(*x)"), "render::abstract-sub-renderers", props=P)
-    MK = {"selects": "l_selexprs", "from": "l_trefs", "groups": "l_exprs", "orders": "l_orders"}
+    if variant != "clauses":
+        parts_spec(u, "insert", "InsertStatement", INSERT_PARTS)
+    if variant in (None, "statements"):
+        u.emit("pub struct Dflt;\nimpl Dflt {\n")
+        u.spec(abstract("prepare_with_clause", "x: &WithClause", "Ev::With(*x)") + abstract("prepare_select_distinct", "x: &SelectDistinct", "Ev::Distinct(*x)")
+               + abstract("prepare_select_expr", "x: &SelectExpr", "Ev::SelExpr(*x)") + abstract("prepare_table_ref", "x: &TableRef", "Ev::TRef(*x)")
+               + abstract("prepare_index_hints", "x: &SelectStatement", "Ev::IndexHints") + abstract("prepare_table_sample", "x: &SelectStatement", "Ev::TableSample")
+               + abstract("prepare_join_expr", "x: &JoinExpr", "Ev::Join(*x)") + abstract("prepare_condition", "x: &ConditionHolder, kw: &str", "Ev::Cond(kw@, *x)")
+               + abstract("prepare_simple_expr", "x: &SimpleExpr", "Ev::Expr(*x)") + abstract("prepare_union_statement", "t: UnionType, q: &SelectStatement", "Ev::Union(t, *q)")
+               + abstract("prepare_order_expr", "x: &OrderExpr", "Ev::Order(*x)") + abstract("prepare_select_limit_offset", "x: &SelectStatement", "Ev::LimitOffset")
+               + abstract("prepare_select_lock", "x: &LockClause", "Ev::Lock(*x)") + abstract("prepare_iden", "x: &DynIden", "Ev::Iden(*x)")
+               + abstract("prepare_window_statement", "x: &WindowStatement", "Ev::Window(*x)"), "render::abstract-sub-renderers", props=P)
+        MK = {"selects": "l_selexprs", "from": "l_trefs", "groups": "l_exprs", "orders": "l_orders"}
 
-    def sep_end(it, coll, mk):
-        return "proof { lemma_%s_step(%s@, %s.index@ as int); }" % (mk, coll, it)
+        def sep_end(it, coll, mk):
+            return "proof { lemma_%s_step(%s@, %s.index@ as int); }" % (mk, coll, it)
 
-    def full(coll):
-        return "assert(%s@.subrange(0, %s@.len() as int) =~= %s@);" % (coll, coll, coll)
+        def full(coll):
+            return "assert(%s@.subrange(0, %s@.len() as int) =~= %s@);" % (coll, coll, coll)
 
-    def start(t, coll, mk):
-        return "let ghost %s = sql.tr();\nproof { lemma_%s_empty(%s@); assert(%s + Seq::<Ev>::empty() =~= %s); }" % (t, mk, coll, t, t)
-    u.fn(QB, "trait QueryBuilder", "prepare_select_statement", props=P, key="QueryBuilder::prepare_select_statement", vpath="Dflt::prepare_select_statement", prefix="#[verifier::rlimit(80)]\n    ",
-         rules=[r_dynw, r_fold, r_fmt,
-                make_r_sub("R-opaque", r"name\.prepare\(sql, self\.quote\(\)\)", "self.prepare_iden(name, sql)"),
-                make_r_sub("R-forghost", r"for expr in select\.join\.iter\(\)", "for expr in itj: select.join.iter()")],
-         spec="ensures\n    // every clause that was given, exactly once, in the order the grammar requires, list items in call order\n    final(sql).tr() == old(sql).tr() + select_events(*select),",
-         loops=[fold_inv("it1", "select.selects", MK["selects"], "t1"),
-                fold_inv("it2", "select.from", MK["from"], "t2"),
-                "invariant itj.index@ <= select.join@.len(), sql.tr() == tj + l_joins(select.join@.subrange(0, itj.index@ as int)),",
-                fold_inv("it3", "select.groups", MK["groups"], "t3"),
-                "invariant it4.index@ <= select.unions@.len(), sql.tr() == tu + l_unions(select.unions@.subrange(0, it4.index@ as int)),",
-                fold_inv("it5", "select.orders", MK["orders"], "t5")],
-         proofs={"body-start": snapshots(SELECT_PARTS),
-                 'before#1:vfmt_lit(sql, "SELECT ")': stage("select", "select", "with", None, nxt="kw"),
-                 "before#1:if let Some(distinct)": stage("select", "select", "kw", "with", nxt="distinct"),
-                 "before#1:let mut first = true;": stage("select", "select", "distinct", "kw", nxt="list") + "\n" + start("t1", "select.selects", "l_selexprs"),
-                 "loop1-end": sep_end("it1", "select.selects", MK["selects"]),
-                 "before#1:if !select.from.is_empty()": "proof { " + full("select.selects") + " }\n" + stage("select", "select", "list", "distinct", nxt="from"),
-                 "before#2:let mut first = true;": start("t2", "select.from", "l_trefs"),
-                 "loop2-end": sep_end("it2", "select.from", MK["from"]),
-                 "before#1:self.prepare_index_hints": "proof { " + full("select.from") + " }",
-                 "before#1:if !select.join.is_empty()": stage("select", "select", "from", "list", nxt="join") + "\n" + start("tj", "select.join", "l_joins"),
-                 "loop3-end": "proof { lemma_l_joins_step(select.join@, itj.index@ as int); }",
-                 'before#1:self.prepare_condition(&select.r#where': "proof { " + full("select.join") + " }\n" + stage("select", "select", "join", "from", nxt="where"),
-                 "before#1:if !select.groups.is_empty()": stage("select", "select", "where", "join", nxt="group"),
-                 "before#3:let mut first = true;": start("t3", "select.groups", "l_exprs"),
-                 "loop4-end": sep_end("it3", "select.groups", MK["groups"]),
-                 'before#1:self.prepare_condition(&select.having': "proof { " + full("select.groups") + " }\n" + stage("select", "select", "group", "where", nxt="having"),
-                 "before#1:if let Some((name, query)) = &select.window": stage("select", "select", "having", "group", nxt="window"),
-                 "before#1:if !select.unions.is_empty()": stage("select", "select", "window", "having", nxt="union") + "\n" + start("tu", "select.unions", "l_unions"),
-                 "loop5-end": "proof { lemma_l_unions_step(select.unions@, it4.index@ as int); }",
-                 "before#1:if !select.orders.is_empty()": "proof { " + full("select.unions") + " }\n" + stage("select", "select", "union", "window", nxt="order"),
-                 "before#4:let mut first = true;": start("t5", "select.orders", "l_orders"),
-                 "loop6-end": sep_end("it5", "select.orders", MK["orders"]),
-                 "before#1:self.prepare_select_limit_offset": "proof { " + full("select.orders") + " }\n" + stage("select", "select", "order", "union", nxt="limit"),
-                 "before#1:if let Some(lock) = &select.lock": stage("select", "select", "limit", "order", nxt="lock"),
-                 "body-end": stage("select", "select", "lock", "limit", nxt=None),
-                 })
-    # ---- DELETE ------------------------------------------------------------------------------------------------------------
-    u.spec(abstract("prepare_output", "x: &Option<ReturningClause>", "Ev::Output(*x)") + abstract("prepare_returning", "x: &Option<ReturningClause>", "Ev::Returning(*x)")
-           + abstract("prepare_delete_order_by", "x: &DeleteStatement", "Ev::DelOrderBy") + abstract("prepare_delete_limit", "x: &DeleteStatement", "Ev::DelLimit")
-           + abstract("prepare_update_join", "f: &Vec<TableRef>, c: &ConditionHolder", "Ev::UpdJoin") + abstract("prepare_update_from", "f: &Vec<TableRef>", "Ev::UpdFrom")
-           + abstract("prepare_update_column", "t: &Option<Box<TableRef>>, f: &Vec<TableRef>, c: &DynIden", "Ev::UpdColumn(*c)")
-           + abstract("prepare_update_condition", "f: &Vec<TableRef>, c: &ConditionHolder", "Ev::UpdCond") + abstract("prepare_update_order_by", "x: &UpdateStatement", "Ev::UpdOrderBy")
-           + abstract("prepare_update_limit", "x: &UpdateStatement", "Ev::UpdLimit"), "render::abstract-hooks", props=P)
+        def start(t, coll, mk):
+            return "let ghost %s = sql.tr();\nproof { lemma_%s_empty(%s@); assert(%s + Seq::<Ev>::empty() =~= %s); }" % (t, mk, coll, t, t)
+        u.fn(QB, "trait QueryBuilder", "prepare_select_statement", props=P, key="QueryBuilder::prepare_select_statement", vpath="Dflt::prepare_select_statement", prefix="#[verifier::rlimit(80)]\n    ",
+             rules=[r_dynw, r_fold, r_fmt,
+                    make_r_sub("R-opaque", r"name\.prepare\(sql, self\.quote\(\)\)", "self.prepare_iden(name, sql)"),
+                    make_r_sub("R-forghost", r"for expr in select\.join\.iter\(\)", "for expr in itj: select.join.iter()")],
+             spec="ensures\n    // every clause that was given, exactly once, in the order the grammar requires, list items in call order\n    final(sql).tr() == old(sql).tr() + select_events(*select),",
+             loops=[fold_inv("it1", "select.selects", MK["selects"], "t1"),
+                    fold_inv("it2", "select.from", MK["from"], "t2"),
+                    "invariant itj.index@ <= select.join@.len(), sql.tr() == tj + l_joins(select.join@.subrange(0, itj.index@ as int)),",
+                    fold_inv("it3", "select.groups", MK["groups"], "t3"),
+                    "invariant it4.index@ <= select.unions@.len(), sql.tr() == tu + l_unions(select.unions@.subrange(0, it4.index@ as int)),",
+                    fold_inv("it5", "select.orders", MK["orders"], "t5")],
+             proofs={"body-start": snapshots(SELECT_PARTS),
+                     'before#1:vfmt_lit(sql, "SELECT ")': stage("select", "select", "with", None, nxt="kw"),
+                     "before#1:if let Some(distinct)": stage("select", "select", "kw", "with", nxt="distinct"),
+                     "before#1:let mut first = true;": stage("select", "select", "distinct", "kw", nxt="list") + "\n" + start("t1", "select.selects", "l_selexprs"),
+                     "loop1-end": sep_end("it1", "select.selects", MK["selects"]),
+                     "before#1:if !select.from.is_empty()": "proof { " + full("select.selects") + " }\n" + stage("select", "select", "list", "distinct", nxt="from"),
+                     "before#2:let mut first = true;": start("t2", "select.from", "l_trefs"),
+                     "loop2-end": sep_end("it2", "select.from", MK["from"]),
+                     "before#1:self.prepare_index_hints": "proof { " + full("select.from") + " }",
+                     "before#1:if !select.join.is_empty()": stage("select", "select", "from", "list", nxt="join") + "\n" + start("tj", "select.join", "l_joins"),
+                     "loop3-end": "proof { lemma_l_joins_step(select.join@, itj.index@ as int); }",
+                     'before#1:self.prepare_condition(&select.r#where': "proof { " + full("select.join") + " }\n" + stage("select", "select", "join", "from", nxt="where"),
+                     "before#1:if !select.groups.is_empty()": stage("select", "select", "where", "join", nxt="group"),
+                     "before#3:let mut first = true;": start("t3", "select.groups", "l_exprs"),
+                     "loop4-end": sep_end("it3", "select.groups", MK["groups"]),
+                     'before#1:self.prepare_condition(&select.having': "proof { " + full("select.groups") + " }\n" + stage("select", "select", "group", "where", nxt="having"),
+                     "before#1:if let Some((name, query)) = &select.window": stage("select", "select", "having", "group", nxt="window"),
+                     "before#1:if !select.unions.is_empty()": stage("select", "select", "window", "having", nxt="union") + "\n" + start("tu", "select.unions", "l_unions"),
+                     "loop5-end": "proof { lemma_l_unions_step(select.unions@, it4.index@ as int); }",
+                     "before#1:if !select.orders.is_empty()": "proof { " + full("select.unions") + " }\n" + stage("select", "select", "union", "window", nxt="order"),
+                     "before#4:let mut first = true;": start("t5", "select.orders", "l_orders"),
+                     "loop6-end": sep_end("it5", "select.orders", MK["orders"]),
+                     "before#1:self.prepare_select_limit_offset": "proof { " + full("select.orders") + " }\n" + stage("select", "select", "order", "union", nxt="limit"),
+                     "before#1:if let Some(lock) = &select.lock": stage("select", "select", "limit", "order", nxt="lock"),
+                     "body-end": stage("select", "select", "lock", "limit", nxt=None),
+                     })
+        # ---- DELETE ------------------------------------------------------------------------------------------------------------
+        u.spec(abstract("prepare_output", "x: &Option<ReturningClause>", "Ev::Output(*x)") + abstract("prepare_returning", "x: &Option<ReturningClause>", "Ev::Returning(*x)")
+               + abstract("prepare_delete_order_by", "x: &DeleteStatement", "Ev::DelOrderBy") + abstract("prepare_delete_limit", "x: &DeleteStatement", "Ev::DelLimit")
+               + abstract("prepare_update_join", "f: &Vec<TableRef>, c: &ConditionHolder", "Ev::UpdJoin") + abstract("prepare_update_from", "f: &Vec<TableRef>", "Ev::UpdFrom")
+               + abstract("prepare_update_column", "t: &Option<Box<TableRef>>, f: &Vec<TableRef>, c: &DynIden", "Ev::UpdColumn(*c)")
+               + abstract("prepare_update_condition", "f: &Vec<TableRef>, c: &ConditionHolder", "Ev::UpdCond") + abstract("prepare_update_order_by", "x: &UpdateStatement", "Ev::UpdOrderBy")
+               + abstract("prepare_update_limit", "x: &UpdateStatement", "Ev::UpdLimit"), "render::abstract-hooks", props=P)
 
-    def anchors(prefix, var, parts, marks):
-        """proof hints: marks[i] = anchor text located right AFTER part i's code (i.e. before the next part's code); the last part uses body-end"""
-        pr = {"body-start": snapshots(parts)}
-        for i, (name, _, _) in enumerate(parts):
-            prev = parts[i - 1][0] if i > 0 else None
-            nxt = parts[i + 1][0] if i + 1 < len(parts) else None
-            a = marks[i] if i < len(marks) else "body-end"
-            pr[a] = pr.get(a, "") + ("\n" if a in pr else "") + stage(prefix, var, name, prev, nxt=nxt)
-        return pr
-    u.fn(QB, "trait QueryBuilder", "prepare_delete_statement", props=P, key="QueryBuilder::prepare_delete_statement", vpath="Dflt::prepare_delete_statement",
-         rules=[r_dynw, r_fmt],
-         spec="ensures final(sql).tr() == old(sql).tr() + delete_events(*delete),",
-         proofs=anchors("delete", "delete", DELETE_PARTS, ['before#1:vfmt_lit(sql, "DELETE ")', "before#1:if let Some(table) = &delete.table", "before#1:self.prepare_output", "before#1:self.prepare_condition",
-                                                           "before#1:self.prepare_delete_order_by", "before#1:self.prepare_delete_limit", "before#1:self.prepare_returning"]))
-    # ---- UPDATE ------------------------------------------------------------------------------------------------------------
-    upd = anchors("update", "update", UPDATE_PARTS, ['before#1:vfmt_lit(sql, "UPDATE ")', "before#1:if let Some(table) = &update.table", "before#1:self.prepare_update_join", 'before#1:vfmt_lit(sql, " SET ")',
-                                                      "before#1:let mut first = true;", "before#1:self.prepare_update_from", "before#1:self.prepare_output", "before#1:self.prepare_update_condition",
-                                                      "before#1:self.prepare_update_order_by", "before#1:self.prepare_update_limit", "before#1:self.prepare_returning"])
-    upd["before#1:let mut first = true;"] += "\n" + "let ghost tv = sql.tr();\nproof { lemma_l_updvalues_empty(update.values@); assert(tv + Seq::<Ev>::empty() =~= tv); }"
-    upd["loop1-end"] = "proof { lemma_l_updvalues_step(update.values@, it1.index@ as int); }"
-    upd["before#1:self.prepare_update_from"] = "proof { lemma_l_updvalues_empty(update.values@); }\n" + upd["before#1:self.prepare_update_from"]
-    u.fn(QB, "trait QueryBuilder", "prepare_update_statement", props=P, key="QueryBuilder::prepare_update_statement", vpath="Dflt::prepare_update_statement",
-         rules=[r_dynw, r_fold, r_fmt],
-         spec="ensures final(sql).tr() == old(sql).tr() + update_events(*update),",
-         loops=["""invariant
-    it1.index@ <= update.values@.len(), first == (it1.index@ == 0),
-    sql.tr() == tv + l_updvalues(update.values@.subrange(0, it1.index@ as int)),"""],
-         proofs=upd)
-    # ---- INSERT ------------------------------------------------------------------------------------------------------------
-    u.spec(abstract("prepare_insert", "replace: bool", "Ev::InsertKw(replace)") + abstract("insert_default_values", "n: u32", "Ev::DefaultValues(n)")
-           + abstract("prepare_on_conflict", "x: &Option<OnConflict>", "Ev::OnConflict(*x)") + abstract("prepare_select_statement_sub", "x: &SelectStatement", "Ev::Select(*x)")
-           + "    fn vbox_ref<T>(b: &Box<T>) -> (r: &T) ensures *r == **b { &**b }\n", "render::abstract-hooks(insert)", props=P)
-    ins = anchors("insert", "insert", INSERT_PARTS, ["before#1:self.prepare_insert(", "before#1:if let Some(table) = &insert.table", "before#1:if insert.default_values.is_some()",
-                                                      "before#1:self.prepare_on_conflict", "before#1:self.prepare_returning"])
-    BODY_ELSE = "((tb.push(lit(\" \")).push(lit(\"(\")) + l_idens(insert.columns@)).push(lit(\")\")).push(Ev::Output(insert.returning)))"
-    ins["before#1:if insert.default_values.is_some()"] += "\nlet ghost tb = sql.tr();"
-    ins["before#1:let mut first = true;"] = "let ghost tc = sql.tr();\nproof { lemma_l_idens_empty(insert.columns@); assert(tc + Seq::<Ev>::empty() =~= tc); }"
-    ins["loop1-end"] = "proof { lemma_l_idens_step(insert.columns@, it1.index@ as int); }"
-    ins["before#2:self.prepare_output(&insert.returning, sql);"] = "proof { lemma_l_idens_empty(insert.columns@); }"
-    ins["before#1:let mut first_o = true;"] = "let ghost tv = sql.tr();\nproof { lemma_l_rows_empty(values@); assert(tv + Seq::<Ev>::empty() =~= tv); }"
-    ins["before#2:let mut first = true;"] = "let ghost trow = sql.tr();\nproof { lemma_l_exprs_empty(row@); assert(trow + Seq::<Ev>::empty() =~= trow); }"
-    ins["loop3-end"] = "proof { lemma_l_exprs_step(row@, it3.index@ as int); }"
-    ins["loop2-end"] = "proof { lemma_l_exprs_empty(row@); lemma_l_rows_step(values@, it2.index@ as int); assert(sql.tr() =~= tv + l_rows(values@.subrange(0, it2.index@ + 1))); }"
-    ins["before#1:self.prepare_on_conflict"] = "proof { if !(insert.default_values.is_some() && insert.columns@.len() == 0 && insert.source.is_none()) { if insert.source is Some && insert.source->Some_0 is Values { lemma_l_rows_empty(insert.source->Some_0->Values_0@); } } assert(sql.tr() =~= tb + " + INSERT_BODY.replace("s.", "insert.") + "); }\n" + ins["before#1:self.prepare_on_conflict"]
-    u.fn(QB, "trait QueryBuilder", "prepare_insert_statement", props=P, key="QueryBuilder::prepare_insert_statement", vpath="Dflt::prepare_insert_statement", prefix="#[verifier::rlimit(60)]\n    ",
-         rules=[r_dynw, r_fold, r_fmt, make_r_sub("R-opaque", r"col\.prepare\(sql, self\.quote\(\)\)", "self.prepare_iden(col, sql)"),
-                make_r_sub("R-path", r"self\.prepare_select_statement\(select_query\.deref\(\), sql\)", "self.prepare_select_statement_sub(Self::vbox_ref(select_query), sql)")],
-         spec="ensures\n    // every clause given, once, in grammar order; columns, rows and cells in call order\n    final(sql).tr() == old(sql).tr() + insert_events(*insert),",
-         loops=["invariant it1.index@ <= insert.columns@.len(), first == (it1.index@ == 0), sql.tr() == tc + l_idens(insert.columns@.subrange(0, it1.index@ as int)),",
-                "invariant it2.index@ <= values@.len(), first_o == (it2.index@ == 0), sql.tr() == tv + l_rows(values@.subrange(0, it2.index@ as int)),",
-                """invariant it3.index@ <= row@.len(), first == (it3.index@ == 0), sql.tr() == trow + l_exprs(row@.subrange(0, it3.index@ as int)),
-    0 <= it2.index@ < values@.len(), row == values@[it2.index@ as int],
-    trow == (if it2.index@ == 0 { tv.push(lit("(")) } else { (tv + l_rows(values@.subrange(0, it2.index@ as int))).push(lit(", ")).push(lit("(")) }),"""],
-         proofs=ins)
-    # ---- default hooks -------------------------------------------------------------------------------------------------------
-    u.type_item("src/query/update.rs", "struct", "UpdateStatement", props=P, keep_fields=["orders"], key="UpdateStatement(orders)",
-                rules=[make_r_sub("R-fields", r"struct UpdateStatement", "struct UpdateStatementO")]) if False else None
-    u.fn(QB, "trait QueryBuilder", "prepare_update_from", rename="prepare_update_from_dflt", props=P, key="QueryBuilder::prepare_update_from[default]", vpath="Dflt::prepare_update_from_dflt",
-         rules=[r_dynw, r_fold, r_fmt, make_r_sub("R-slice", r"from: &\[TableRef\]", "from: &Vec<TableRef>")],
-         spec="ensures\n    // UPDATE .. FROM t1, t2 (Postgres / SQLite): every table given, in call order; nothing when none was given\n    final(sql).tr() == old(sql).tr() + (if from@.len() == 0 { Seq::<Ev>::empty() } else { seq![lit(\" FROM \")] + l_trefs(from@) }),",
-         loops=["invariant it1.index@ <= from@.len(), first == (it1.index@ == 0), sql.tr() == tf + l_trefs(from@.subrange(0, it1.index@ as int)),"],
-         proofs={"body-start": "let ghost t0 = sql.tr();\nproof { assert(t0 + Seq::<Ev>::empty() =~= t0); }",
-                 "before#1:let mut first = true;": "let ghost tf = sql.tr();\nproof { lemma_l_trefs_empty(from@); assert(tf + Seq::<Ev>::empty() =~= tf); }",
-                 "loop1-end": "proof { lemma_l_trefs_step(from@, it1.index@ as int); }",
-                 "body-end": "proof { lemma_l_trefs_empty(from@); assert(sql.tr() =~= t0 + (seq![lit(\" FROM \")] + l_trefs(from@))); }"})
-    u.fn(QB, "trait QueryBuilder", "prepare_update_condition", rename="prepare_update_condition_dflt", props=P, key="QueryBuilder::prepare_update_condition[default]", vpath="Dflt::prepare_update_condition_dflt",
-         rules=[r_dynw, make_r_sub("R-slice", r"_: &\[TableRef\]", "_from: &Vec<TableRef>"), make_r_sub("R-str", r'self\.prepare_condition\(condition, "WHERE", sql\)', 'self.prepare_condition(condition, "WHERE", sql)')],
-         spec="ensures final(sql).tr() == old(sql).tr().push(Ev::Cond(\"WHERE\"@, *condition)),")
-    u.emit("}\n")
-    # ---- MySQL overrides: UPDATE t JOIN .. ON .. SET ..  (no FROM, the condition moves into ON) -------------------------------------
-    u.emit("pub struct MysqlQueryBuilder;\nimpl MysqlQueryBuilder {\n")
-    u.spec(abstract("prepare_table_ref", "x: &TableRef", "Ev::TRef(*x)") + abstract("prepare_condition", "x: &ConditionHolder, kw: &str", "Ev::Cond(kw@, *x)"), "render::abstract-sub-renderers(mysql)", props=P)
-    MY = "src/backend/mysql/query.rs"
-    u.fn(MY, "impl QueryBuilder for MysqlQueryBuilder", "prepare_update_join", props=P, key="MysqlQueryBuilder::prepare_update_join", vpath="MysqlQueryBuilder::prepare_update_join",
-         rules=[r_dynw, r_fmt, make_r_sub("R-slice", r"from: &\[TableRef\]", "from: &Vec<TableRef>")],
-         spec=[("""ensures
-    // MySQL form: nothing without extra tables, otherwise ` JOIN <table> ON <the statement's condition>` (the condition moves here)
-    from@.len() == 0 ==> final(sql).tr() == old(sql).tr(),
-    from@.len() > 0 ==> final(sql).tr().len() >= old(sql).tr().len() + 3 && final(sql).tr().subrange(0, old(sql).tr().len() as int) == old(sql).tr()
-        && final(sql).tr()[old(sql).tr().len() as int] == lit(" JOIN ") && final(sql).tr().last() == Ev::Cond("ON"@, *condition),""", P),
-               ("    // C08: EVERY table that was given is rendered\n    forall|i: int| 0 <= i < from@.len() ==> final(sql).tr().contains(Ev::TRef(#[trigger] from@[i])),", P)],
-         proofs={"body-start": "let ghost t0 = sql.tr();", "body-end": "proof { assert(sql.tr().subrange(0, t0.len() as int) =~= t0); assert(sql.tr()[t0.len() as int + 1] == Ev::TRef(from@[0])); }"})
-    u.fn(MY, "impl QueryBuilder for MysqlQueryBuilder", "prepare_update_from", props=P, key="MysqlQueryBuilder::prepare_update_from", vpath="MysqlQueryBuilder::prepare_update_from",
-         rules=[r_dynw, make_r_sub("R-slice", r"_: &\[TableRef\], _: &mut W", "_from: &Vec<TableRef>, sql: &mut W")],
-         spec="ensures\n    // UPDATE .. FROM is not MySQL syntax: it must not appear\n    final(sql).tr() == old(sql).tr(),")
-    u.fn(MY, "impl QueryBuilder for MysqlQueryBuilder", "prepare_update_condition", props=P, key="MysqlQueryBuilder::prepare_update_condition", vpath="MysqlQueryBuilder::prepare_update_condition",
-         rules=[r_dynw, make_r_sub("R-slice", r"from: &\[TableRef\]", "from: &Vec<TableRef>")],
-         spec="ensures\n    // the condition is rendered exactly once: in JOIN .. ON when there are extra tables, as WHERE otherwise\n    final(sql).tr() == (if from@.len() > 0 { old(sql).tr() } else { old(sql).tr().push(Ev::Cond(\"WHERE\"@, *condition)) }),")
-    u.emit("}\n")
+        def anchors(prefix, var, parts, marks):
+            """proof hints: marks[i] = anchor text located right AFTER part i's code (i.e. before the next part's code); the last part uses body-end"""
+            pr = {"body-start": snapshots(parts)}
+            for i, (name, _, _) in enumerate(parts):
+                prev = parts[i - 1][0] if i > 0 else None
+                nxt = parts[i + 1][0] if i + 1 < len(parts) else None
+                a = marks[i] if i < len(marks) else "body-end"
+                pr[a] = pr.get(a, "") + ("\n" if a in pr else "") + stage(prefix, var, name, prev, nxt=nxt)
+            return pr
+        u.fn(QB, "trait QueryBuilder", "prepare_delete_statement", props=P, key="QueryBuilder::prepare_delete_statement", vpath="Dflt::prepare_delete_statement",
+             rules=[r_dynw, r_fmt],
+             spec="ensures final(sql).tr() == old(sql).tr() + delete_events(*delete),",
+             proofs=anchors("delete", "delete", DELETE_PARTS, ['before#1:vfmt_lit(sql, "DELETE ")', "before#1:if let Some(table) = &delete.table", "before#1:self.prepare_output", "before#1:self.prepare_condition",
+                                                               "before#1:self.prepare_delete_order_by", "before#1:self.prepare_delete_limit", "before#1:self.prepare_returning"]))
+        # ---- UPDATE ------------------------------------------------------------------------------------------------------------
+        upd = anchors("update", "update", UPDATE_PARTS, ['before#1:vfmt_lit(sql, "UPDATE ")', "before#1:if let Some(table) = &update.table", "before#1:self.prepare_update_join", 'before#1:vfmt_lit(sql, " SET ")',
+                                                          "before#1:let mut first = true;", "before#1:self.prepare_update_from", "before#1:self.prepare_output", "before#1:self.prepare_update_condition",
+                                                          "before#1:self.prepare_update_order_by", "before#1:self.prepare_update_limit", "before#1:self.prepare_returning"])
+        upd["before#1:let mut first = true;"] += "\n" + "let ghost tv = sql.tr();\nproof { lemma_l_updvalues_empty(update.values@); assert(tv + Seq::<Ev>::empty() =~= tv); }"
+        upd["loop1-end"] = "proof { lemma_l_updvalues_step(update.values@, it1.index@ as int); }"
+        upd["before#1:self.prepare_update_from"] = "proof { lemma_l_updvalues_empty(update.values@); }\n" + upd["before#1:self.prepare_update_from"]
+        u.fn(QB, "trait QueryBuilder", "prepare_update_statement", props=P, key="QueryBuilder::prepare_update_statement", vpath="Dflt::prepare_update_statement",
+             rules=[r_dynw, r_fold, r_fmt],
+             spec="ensures final(sql).tr() == old(sql).tr() + update_events(*update),",
+             loops=["""invariant
+        it1.index@ <= update.values@.len(), first == (it1.index@ == 0),
+        sql.tr() == tv + l_updvalues(update.values@.subrange(0, it1.index@ as int)),"""],
+             proofs=upd)
+        # ---- INSERT ------------------------------------------------------------------------------------------------------------
+        u.spec(abstract("prepare_insert", "replace: bool", "Ev::InsertKw(replace)") + abstract("insert_default_values", "n: u32", "Ev::DefaultValues(n)")
+               + abstract("prepare_on_conflict", "x: &Option<OnConflict>", "Ev::OnConflict(*x)") + abstract("prepare_select_statement_sub", "x: &SelectStatement", "Ev::Select(*x)")
+               + "    fn vbox_ref<T>(b: &Box<T>) -> (r: &T) ensures *r == **b { &**b }\n", "render::abstract-hooks(insert)", props=P)
+        ins = anchors("insert", "insert", INSERT_PARTS, ["before#1:self.prepare_insert(", "before#1:if let Some(table) = &insert.table", "before#1:if insert.default_values.is_some()",
+                                                          "before#1:self.prepare_on_conflict", "before#1:self.prepare_returning"])
+        BODY_ELSE = "((tb.push(lit(\" (\")) + l_idens(insert.columns@)).push(lit(\")\")).push(Ev::Output(insert.returning)))"
+        ins["before#1:if insert.default_values.is_some()"] += "\nlet ghost tb = sql.tr();"
+        ins["before#1:let mut first = true;"] = "let ghost tc = sql.tr();\nproof { lemma_l_idens_empty(insert.columns@); assert(tc + Seq::<Ev>::empty() =~= tc); }"
+        ins["loop1-end"] = "proof { lemma_l_idens_step(insert.columns@, it1.index@ as int); }"
+        ins["before#2:self.prepare_output(&insert.returning, sql);"] = "proof { lemma_l_idens_empty(insert.columns@); }"
+        ins["before#1:let mut first_o = true;"] = "let ghost tv = sql.tr();\nproof { lemma_l_rows_empty(values@); assert(tv + Seq::<Ev>::empty() =~= tv); }"
+        ins["before#2:let mut first = true;"] = "let ghost trow = sql.tr();\nproof { lemma_l_exprs_empty(row@); assert(trow + Seq::<Ev>::empty() =~= trow); }"
+        ins["loop3-end"] = "proof { lemma_l_exprs_step(row@, it3.index@ as int); }"
+        ins["loop2-end"] = "proof { lemma_l_exprs_empty(row@); lemma_l_rows_step(values@, it2.index@ as int); assert(sql.tr() =~= tv + l_rows(values@.subrange(0, it2.index@ + 1))); }"
+        ins["before#1:self.prepare_on_conflict"] = "proof { if !(insert.default_values.is_some() && insert.columns@.len() == 0 && insert.source.is_none()) { if insert.source is Some && insert.source->Some_0 is Values { lemma_l_rows_empty(insert.source->Some_0->Values_0@); } } assert(sql.tr() =~= tb + " + INSERT_BODY.replace("s.", "insert.") + "); }\n" + ins["before#1:self.prepare_on_conflict"]
+        u.fn(QB, "trait QueryBuilder", "prepare_insert_statement", props=P, key="QueryBuilder::prepare_insert_statement", vpath="Dflt::prepare_insert_statement", prefix="#[verifier::rlimit(60)]\n    ",
+             rules=[r_dynw, r_fold, r_fmt, make_r_sub("R-opaque", r"col\.prepare\(sql, self\.quote\(\)\)", "self.prepare_iden(col, sql)"),
+                    make_r_sub("R-path", r"self\.prepare_select_statement\(select_query\.deref\(\), sql\)", "self.prepare_select_statement_sub(Self::vbox_ref(select_query), sql)")],
+             spec="ensures\n    // every clause given, once, in grammar order; columns, rows and cells in call order\n    final(sql).tr() == old(sql).tr() + insert_events(*insert),",
+             loops=["invariant it1.index@ <= insert.columns@.len(), first == (it1.index@ == 0), sql.tr() == tc + l_idens(insert.columns@.subrange(0, it1.index@ as int)),",
+                    "invariant it2.index@ <= values@.len(), first_o == (it2.index@ == 0), sql.tr() == tv + l_rows(values@.subrange(0, it2.index@ as int)),",
+                    """invariant it3.index@ <= row@.len(), first == (it3.index@ == 0), sql.tr() == trow + l_exprs(row@.subrange(0, it3.index@ as int)),
+        0 <= it2.index@ < values@.len(), row == values@[it2.index@ as int],
+        trow == (if it2.index@ == 0 { tv.push(lit("(")) } else { (tv + l_rows(values@.subrange(0, it2.index@ as int))).push(lit(", ")).push(lit("(")) }),"""],
+             proofs=ins)
+        # ---- default hooks -------------------------------------------------------------------------------------------------------
+        u.type_item("src/query/update.rs", "struct", "UpdateStatement", props=P, keep_fields=["orders"], key="UpdateStatement(orders)",
+                    rules=[make_r_sub("R-fields", r"struct UpdateStatement", "struct UpdateStatementO")]) if False else None
+        u.fn(QB, "trait QueryBuilder", "prepare_update_from", rename="prepare_update_from_dflt", props=P, key="QueryBuilder::prepare_update_from[default]", vpath="Dflt::prepare_update_from_dflt",
+             rules=[r_dynw, r_fold, r_fmt, make_r_sub("R-slice", r"from: &\[TableRef\]", "from: &Vec<TableRef>")],
+             spec="ensures\n    // UPDATE .. FROM t1, t2 (Postgres / SQLite): every table given, in call order; nothing when none was given\n    final(sql).tr() == old(sql).tr() + (if from@.len() == 0 { Seq::<Ev>::empty() } else { seq![lit(\" FROM \")] + l_trefs(from@) }),",
+             loops=["invariant it1.index@ <= from@.len(), first == (it1.index@ == 0), sql.tr() == tf + l_trefs(from@.subrange(0, it1.index@ as int)),"],
+             proofs={"body-start": "let ghost t0 = sql.tr();\nproof { assert(t0 + Seq::<Ev>::empty() =~= t0); }",
+                     "before#1:let mut first = true;": "let ghost tf = sql.tr();\nproof { lemma_l_trefs_empty(from@); assert(tf + Seq::<Ev>::empty() =~= tf); }",
+                     "loop1-end": "proof { lemma_l_trefs_step(from@, it1.index@ as int); }",
+                     "body-end": "proof { lemma_l_trefs_empty(from@); assert(sql.tr() =~= t0 + (seq![lit(\" FROM \")] + l_trefs(from@))); }"})
+        u.fn(QB, "trait QueryBuilder", "prepare_update_condition", rename="prepare_update_condition_dflt", props=P, key="QueryBuilder::prepare_update_condition[default]", vpath="Dflt::prepare_update_condition_dflt",
+             rules=[r_dynw, make_r_sub("R-slice", r"_: &\[TableRef\]", "_from: &Vec<TableRef>"), make_r_sub("R-str", r'self\.prepare_condition\(condition, "WHERE", sql\)', 'self.prepare_condition(condition, "WHERE", sql)')],
+             spec="ensures final(sql).tr() == old(sql).tr().push(Ev::Cond(\"WHERE\"@, *condition)),")
+        u.emit("}\n")
+        # ---- MySQL overrides: UPDATE t JOIN .. ON .. SET ..  (no FROM, the condition moves into ON) -------------------------------------
+        u.emit("pub struct MysqlQueryBuilder;\nimpl MysqlQueryBuilder {\n")
+        u.spec(abstract("prepare_table_ref", "x: &TableRef", "Ev::TRef(*x)") + abstract("prepare_condition", "x: &ConditionHolder, kw: &str", "Ev::Cond(kw@, *x)"), "render::abstract-sub-renderers(mysql)", props=P)
+        MY = "src/backend/mysql/query.rs"
+        u.fn(MY, "impl QueryBuilder for MysqlQueryBuilder", "prepare_update_join", props=P, key="MysqlQueryBuilder::prepare_update_join", vpath="MysqlQueryBuilder::prepare_update_join",
+             rules=[r_dynw, r_fmt, make_r_sub("R-slice", r"from: &\[TableRef\]", "from: &Vec<TableRef>")],
+             spec=[("""ensures
+        // MySQL form: nothing without extra tables, otherwise ` JOIN <table> ON <the statement's condition>` (the condition moves here)
+        from@.len() == 0 ==> final(sql).tr() == old(sql).tr(),
+        from@.len() > 0 ==> final(sql).tr().len() >= old(sql).tr().len() + 3 && final(sql).tr().subrange(0, old(sql).tr().len() as int) == old(sql).tr()
+            && final(sql).tr()[old(sql).tr().len() as int] == lit(" JOIN ") && final(sql).tr().last() == Ev::Cond("ON"@, *condition),""", P),
+                   ("    // C08: EVERY table that was given is rendered\n    forall|i: int| 0 <= i < from@.len() ==> final(sql).tr().contains(Ev::TRef(#[trigger] from@[i])),", P)],
+             proofs={"body-start": "let ghost t0 = sql.tr();", "body-end": "proof { assert(sql.tr().subrange(0, t0.len() as int) =~= t0); assert(sql.tr()[t0.len() as int + 1] == Ev::TRef(from@[0])); }"})
+        u.fn(MY, "impl QueryBuilder for MysqlQueryBuilder", "prepare_update_from", props=P, key="MysqlQueryBuilder::prepare_update_from", vpath="MysqlQueryBuilder::prepare_update_from",
+             rules=[r_dynw, make_r_sub("R-slice", r"_: &\[TableRef\], _: &mut W", "_from: &Vec<TableRef>, sql: &mut W")],
+             spec="ensures\n    // UPDATE .. FROM is not MySQL syntax: it must not appear\n    final(sql).tr() == old(sql).tr(),")
+        u.fn(MY, "impl QueryBuilder for MysqlQueryBuilder", "prepare_update_condition", props=P, key="MysqlQueryBuilder::prepare_update_condition", vpath="MysqlQueryBuilder::prepare_update_condition",
+             rules=[r_dynw, make_r_sub("R-slice", r"from: &\[TableRef\]", "from: &Vec<TableRef>")],
+             spec="ensures\n    // the condition is rendered exactly once: in JOIN .. ON when there are extra tables, as WHERE otherwise\n    final(sql).tr() == (if from@.len() > 0 { old(sql).tr() } else { old(sql).tr().push(Ev::Cond(\"WHERE\"@, *condition)) }),")
+        u.emit("}\n")
+    if variant == "statements":
+        u.emit("} // verus!\nfn main() {}\n")
+        return
     # ---- ORDER BY items: the dialect's NULLS-ordering form ---------------------------------------------------------------------
     # grammar: MySQL has no NULLS FIRST / LAST - the documented emulation is an extra sort key `<expr> IS NULL ASC|DESC, ` in front;
     # PostgreSQL / SQLite: `<expr> [ASC|DESC] [NULLS FIRST|LAST]`.  An Order::Field item has no plain key: prepare_order renders
@@ -421,8 +439,6 @@ pub open spec fn ord_nulls_mysql(x: OrderExpr) -> Seq<Ev> {
         u.emit("}\n")
     # ---- joins, set operations, locks, select items, table references ------------------------------------------------------------
     u.spec('''
-#[verifier::external_body] pub struct ValueTuple { _o: u8 }
-#[verifier::external_body] pub struct FunctionCall { _o: u8 }
 // grammar: join_type [LATERAL] table_ref [ON predicate]
 pub open spec fn join_events(j: JoinExpr) -> Seq<Ev> {
     seq![Ev::JoinTy(j.join), lit(" ")] + (if j.lateral { seq![lit("LATERAL ")] } else { Seq::<Ev>::empty() }) + seq![Ev::TRef(*j.table)]
@@ -441,7 +457,7 @@ pub open spec fn lock_events(l: LockClause) -> Seq<Ev> {
 // grammar: expr [OVER { window_name | ( window_spec ) }] [AS alias]
 pub open spec fn select_expr_events(x: SelectExpr) -> Seq<Ev> {
     seq![Ev::Expr(x.expr)]
-        + (match x.window { Some(WindowSelectType::Name(n)) => seq![lit(" OVER "), Ev::Iden(n)], Some(WindowSelectType::Query(w)) => seq![lit(" OVER "), lit("( "), Ev::Window(w), lit(" )")], None => Seq::<Ev>::empty() })
+        + (match x.window { Some(WindowSelectType::Name(n)) => seq![lit(" OVER "), Ev::Iden(n)], Some(WindowSelectType::Query(w)) => seq![lit(" OVER ( "), Ev::Window(w), lit(" )")], None => Seq::<Ev>::empty() })
         + (match x.alias { Some(a) => seq![lit(" AS "), Ev::Iden(a)], None => Seq::<Ev>::empty() })
 }
 ''', "render::join-union-lock-spec", props=P)
@@ -472,6 +488,73 @@ pub open spec fn select_expr_events(x: SelectExpr) -> Seq<Ev> {
     u.emit("pub struct SqliteQueryBuilderJ;\nimpl SqliteQueryBuilderJ {\n")
     u.fn("src/backend/sqlite/query.rs", "impl QueryBuilder for SqliteQueryBuilder", "prepare_select_lock", props=P, key="SqliteQueryBuilder::prepare_select_lock", vpath="SqliteQueryBuilderJ::prepare_select_lock",
          rules=[r_dynw, make_r_sub("R-slice", r"_sql: &mut W", "sql: &mut W")], spec="ensures\n    // SQLite has no row locks: nothing is written\n    final(sql).tr() == old(sql).tr(),")
+    u.emit("}\n")
+    # ---- dialect-specific SELECT constructs: each only in its own dialect, in that dialect's form ---------------------------------------
+    u.spec('''
+// MySQL index hints, after the FROM list:  {USE | IGNORE | FORCE} INDEX [FOR {JOIN | ORDER BY | GROUP BY}] (index)  - space separated
+pub open spec fn hint_events(h: IndexHint) -> Seq<Ev> {
+    seq![lit(match h.r#type { IndexHintType::Use => "USE INDEX ", IndexHintType::Ignore => "IGNORE INDEX ", IndexHintType::Force => "FORCE INDEX " }), Ev::HintScope(h.scope), lit("("), Ev::Iden(h.index), lit(")")]
+}
+pub open spec fn hints_events(hs: Seq<IndexHint>, n: nat) -> Seq<Ev>
+    decreases n
+{
+    if n == 0 || n > hs.len() { Seq::<Ev>::empty() }
+    else if n == 1 { seq![lit(" ")] + hint_events(hs[0]) }
+    else { hints_events(hs, (n - 1) as nat).push(lit(" ")) + hint_events(hs[n - 1]) }
+}
+// PostgreSQL:  TABLESAMPLE {BERNOULLI | SYSTEM} (percentage) [REPEATABLE (seed)]
+pub open spec fn sample_events(t: Option<TableSample>) -> Seq<Ev> {
+    match t {
+        None => Seq::<Ev>::empty(),
+        Some(ts) => seq![lit(match ts.method { SampleMethod::BERNOULLI => " TABLESAMPLE BERNOULLI", SampleMethod::SYSTEM => " TABLESAMPLE SYSTEM" }), lit(" ("), Ev::F64Text(ts.percentage), lit(")")]
+            + (match ts.repeatable { Some(r) => seq![lit(" REPEATABLE ("), Ev::F64Text(r), lit(")")], None => Seq::<Ev>::empty() }),
+    }
+}
+''', "render::dialect-constructs-spec", props=P)
+    NOTHING = "final(sql).tr() == old(sql).tr(),"
+    u.emit("pub struct DfltD;\nimpl DfltD {\n")
+    u.fn(QB, "trait QueryBuilder", "prepare_index_hints", props=P, key="QueryBuilder::prepare_index_hints[default: Postgres, SQLite]", vpath="DfltD::prepare_index_hints",
+         rules=[r_dynw, make_r_sub("R-slice", r"_sql: &mut W", "sql: &mut W")], spec="ensures\n    // index hints are MySQL syntax: nothing elsewhere\n    " + NOTHING)
+    u.fn(QB, "trait QueryBuilder", "prepare_table_sample", props=P, key="QueryBuilder::prepare_table_sample[default: MySQL, SQLite]", vpath="DfltD::prepare_table_sample",
+         rules=[r_dynw, make_r_sub("R-slice", r"_sql: &mut W", "sql: &mut W")], spec="ensures\n    // TABLESAMPLE is not rendered outside Postgres\n    " + NOTHING)
+    u.fn(QB, "trait QueryBuilder", "prepare_select_distinct", props=P, key="QueryBuilder::prepare_select_distinct[default: SQLite]", vpath="DfltD::prepare_select_distinct", rules=[r_dynw, r_fmt],
+         spec="ensures final(sql).tr() == old(sql).tr() + (match *select_distinct { SelectDistinct::All => seq![lit(\"ALL\")], SelectDistinct::Distinct => seq![lit(\"DISTINCT\")], _ => Seq::<Ev>::empty() }),",
+         proofs={"body-start": "let ghost t0 = sql.tr(); let ghost d_ = *select_distinct;", "body-end": "proof { assert(sql.tr() =~= t0 + (match d_ { SelectDistinct::All => seq![lit(\"ALL\")], SelectDistinct::Distinct => seq![lit(\"DISTINCT\")], _ => Seq::<Ev>::empty() })); }"})
+    u.emit("}\n")
+    u.emit("pub struct MysqlQueryBuilderD;\nimpl MysqlQueryBuilderD {\n")
+    u.spec(abstract("prepare_index_hint_scope", "x: &IndexHintScope", "Ev::HintScope(*x)") + abstract("prepare_iden", "x: &DynIden", "Ev::Iden(*x)"), "render::abstract-sub-renderers(mysql hints)", props=P)
+    MYQ2 = "src/backend/mysql/query.rs"
+    from vlib.gen import r_enumerate
+    u.fn(MYQ2, "impl QueryBuilder for MysqlQueryBuilder", "prepare_select_distinct", props=P, key="MysqlQueryBuilder::prepare_select_distinct", vpath="MysqlQueryBuilderD::prepare_select_distinct", rules=[r_dynw, r_fmt],
+         spec="ensures\n    // DISTINCTROW is MySQL's; DISTINCT ON is not MySQL syntax: nothing\n    final(sql).tr() == old(sql).tr() + (match *select_distinct { SelectDistinct::All => seq![lit(\"ALL\")], SelectDistinct::Distinct => seq![lit(\"DISTINCT\")], SelectDistinct::DistinctRow => seq![lit(\"DISTINCTROW\")], _ => Seq::<Ev>::empty() }),",
+         proofs={"body-start": "let ghost t0 = sql.tr(); let ghost d_ = *select_distinct;", "body-end": "proof { assert(sql.tr() =~= t0 + (match d_ { SelectDistinct::All => seq![lit(\"ALL\")], SelectDistinct::Distinct => seq![lit(\"DISTINCT\")], SelectDistinct::DistinctRow => seq![lit(\"DISTINCTROW\")], _ => Seq::<Ev>::empty() })); }"})
+    u.fn(MYQ2, "impl QueryBuilder for MysqlQueryBuilder", "prepare_index_hints", props=P, key="MysqlQueryBuilder::prepare_index_hints", vpath="MysqlQueryBuilderD::prepare_index_hints",
+         rules=[r_dynw, r_enumerate, r_fmt, make_r_sub("R-opaque", r"hint\.index\.prepare\(sql, self\.quote\(\)\)", "self.prepare_iden(&hint.index, sql)", min_count=3)],
+         spec="ensures\n    // every hint that was given, in call order, in MySQL's form\n    final(sql).tr() == old(sql).tr() + hints_events(select.index_hints@, select.index_hints@.len()),",
+         loops=["invariant i == ite1.index@, ite1.index@ <= select.index_hints@.len(), select.index_hints@.len() <= usize::MAX, sql.tr() == (if select.index_hints@.len() == 0 { t0 } else if ite1.index@ == 0 { t0.push(lit(\" \")) } else { t0 + hints_events(select.index_hints@, ite1.index@ as nat) }),"],
+         proofs={"body-start": "let ghost t0 = sql.tr();\nproof { axiom_vec_len_fits(&select.index_hints); assert(t0 + Seq::<Ev>::empty() =~= t0); }",
+                 "loop1-end": "proof { assert(sql.tr() =~= t0 + hints_events(select.index_hints@, (ite1.index@ + 1) as nat)); }"})
+    u.emit("}\n")
+    u.emit("pub struct PostgresQueryBuilderD;\nimpl PostgresQueryBuilderD {\n")
+    u.spec(abstract("prepare_column_ref", "x: &ColumnRef", "Ev::ColRef(*x)"), "render::abstract-sub-renderers(pg distinct)", props=P)
+    PGQ = "src/backend/postgres/query.rs"
+    u.fn(PGQ, "impl QueryBuilder for PostgresQueryBuilder", "prepare_select_distinct", props=P, key="PostgresQueryBuilder::prepare_select_distinct", vpath="PostgresQueryBuilderD::prepare_select_distinct",
+         rules=[r_dynw, r_fold, r_fmt],
+         spec="ensures\n    // DISTINCT ON (cols) is Postgres'; DISTINCTROW is not: nothing\n    final(sql).tr() == old(sql).tr() + (match *select_distinct { SelectDistinct::All => seq![lit(\"ALL\")], SelectDistinct::Distinct => seq![lit(\"DISTINCT\")], SelectDistinct::DistinctOn(cols) => seq![lit(\"DISTINCT ON (\")] + l_colrefs(cols@) + seq![lit(\")\")], _ => Seq::<Ev>::empty() }),",
+         loops=["invariant it1.index@ <= cols@.len(), first == (it1.index@ == 0), sql.tr() == td + l_colrefs(cols@.subrange(0, it1.index@ as int)),"],
+         proofs={"body-start": "let ghost t0 = sql.tr(); let ghost d_ = *select_distinct;",
+                 "before#1:let mut first = true;": "let ghost td = sql.tr();\nproof { lemma_l_colrefs_empty(cols@); assert(td + Seq::<Ev>::empty() =~= td); }",
+                 "loop1-end": "proof { lemma_l_colrefs_step(cols@, it1.index@ as int); }",
+                 "body-end": "proof { match d_ { SelectDistinct::DistinctOn(c) => { lemma_l_colrefs_empty(c@); } _ => {} } assert(sql.tr() =~= t0 + (match d_ { SelectDistinct::All => seq![lit(\"ALL\")], SelectDistinct::Distinct => seq![lit(\"DISTINCT\")], SelectDistinct::DistinctOn(cols) => seq![lit(\"DISTINCT ON (\")] + l_colrefs(cols@) + seq![lit(\")\")], _ => Seq::<Ev>::empty() })); }"})
+    u.fn(PGQ, "impl QueryBuilder for PostgresQueryBuilder", "prepare_table_sample", props=P, key="PostgresQueryBuilder::prepare_table_sample", vpath="PostgresQueryBuilderD::prepare_table_sample",
+         rules=[r_dynw,
+                # R-letelse: `let Some(x) = e else { return; };`  ->  `if e.is_none() { return; } let x = e.unwrap();`
+                make_r_sub("R-letelse", r"let Some\(table_sample\) = select\.table_sample else \{\s*return;\s*\};", "if select.table_sample.is_none() { return; }\n        let table_sample = select.table_sample.unwrap();"),
+                make_r_sub("R-fmt", r'write!\(sql, " \(\{\}\)", table_sample\.percentage\)\.unwrap\(\);', 'vfmt_lit(sql, " ("); vfmt_f64(sql, &table_sample.percentage); vfmt_lit(sql, ")");'),
+                make_r_sub("R-fmt", r'write!\(sql, " REPEATABLE \(\{repeatable\}\)"\)\.unwrap\(\);', 'vfmt_lit(sql, " REPEATABLE ("); vfmt_f64(sql, &repeatable); vfmt_lit(sql, ")");'),
+                r_fmt],
+         spec="ensures final(sql).tr() == old(sql).tr() + sample_events(select.table_sample),",
+         proofs={"body-start": "let ghost t0 = sql.tr();\nproof { assert(t0 + Seq::<Ev>::empty() =~= t0); }", "body-end": "proof { assert(sql.tr() =~= t0 + sample_events(select.table_sample)); }"})
     u.emit("}\n")
     # ---- window specifications -------------------------------------------------------------------------------------------------------
     # grammar (all three dialects): [PARTITION BY expr, ..] [ORDER BY item, ..] [{ROWS | RANGE} {frame_start | BETWEEN frame_start AND frame_end}]
